@@ -144,7 +144,7 @@ func enumerate(tier string) []Tape {
 func meta() core.Meta {
 	return core.Meta{
 		Engine: "c20", Property: "C20", Level: "exploration",
-		Rule:       "case = one run with the taint monitor armed: (file) a secret-bearing keytab or credential cache torn at every offset or bit-rotted and parsed; (client) login and service-ticket request with password or keytab credentials per etype under one reply perturbation or network fault, followed by every diagnostic surface (Client.Print/Diagnostics, Credentials/Config/Keytab JSON, Credentials gob, client log, returned errors, bytes sent); (service) verification of a valid or defective AP-REQ with a capturing logger, followed by re-encoding of what the library decrypted (APReq/Ticket Marshal, credentials JSON/gob); (http) the same through the SPNEGO wrapper with session store; seeded cases draw fresh secrets and combine up to two reply perturbations with a network fault (client) resp. up to two AP-REQ defects with a signed, damaged or missing PAC (service, http); distinct = distinct (scenario, file/etype/credential, fault); non-trivial = at least one secret was live in the process and at least one sink was scanned",
+		Rule:       "case = one run with the taint monitor armed: (file) a secret-bearing keytab or credential cache torn at every offset or bit-rotted and parsed; (client) login and service-ticket request with password or keytab credentials per etype under one reply perturbation or network fault, followed by every diagnostic surface (Client.Print/Diagnostics, Credentials/Config/Keytab JSON, Keytab.String as fmt prints it, Credentials gob, client log, returned errors, bytes sent); (service) verification of a valid or defective AP-REQ with a capturing logger, followed by re-encoding of what the library decrypted (APReq/Ticket Marshal, credentials JSON/gob); (http) the same through the SPNEGO wrapper with session store; seeded cases draw fresh secrets and combine up to two reply perturbations with a network fault (client) resp. up to two AP-REQ defects with a signed, damaged or missing PAC (service, http); distinct = distinct (scenario, file/etype/credential, fault); non-trivial = at least one secret was live in the process and at least one sink was scanned",
 		SweepQuick: len(enumerate("quick")), SweepThorough: len(enumerate("thorough")),
 		SeededQuick: 1500, SeededThorough: 40000,
 		WorkloadProbes: []string{"error-path-reached", "file-torn", "decrypted-object-reencoded", "log-lines-scanned", "wire-bytes-scanned", "subkey-live", "session-key-live", "password-live"},
@@ -390,6 +390,8 @@ func runFile(tp *Tape, m *monitor) {
 					if j, e := kt.JSON(); e == nil {
 						m.scan("keytab-json", "Keytab.JSON", []byte(j))
 					}
+					// the library's own listing of a keytab: what fmt and log print for it
+					m.scan("diagnostic-dump", "Keytab.String", []byte(kt.String()))
 				}
 			}
 		})
@@ -516,6 +518,7 @@ func runClient(tp *Tape, m *monitor) {
 			if j, e := cl.Credentials.Keytab().JSON(); e == nil {
 				m.scan("keytab-json", "Keytab.JSON", []byte(j))
 			}
+			m.scan("diagnostic-dump", "Keytab.String", []byte(fmt.Sprintf("%v", cl.Credentials.Keytab())))
 		}
 		m.scan("log", "client logger "+stage, logBuf.Bytes())
 		m.res.Probes["log-lines-scanned"] += strings.Count(logBuf.String(), "\n")
@@ -641,6 +644,10 @@ func runService(tp *Tape, m *monitor) {
 			var e error
 			engine.Guard(func() { ok, creds, e = service.VerifyAPREQ(&ap, settings) })
 			m.scanErr("service.VerifyAPREQ "+round, e)
+			// a service that logs its settings: fmt prints the keytab in them through Keytab.String
+			// (printed through a struct of the keytab field alone: the other fields of Settings are
+			// pointers whose addresses differ from process to process)
+			m.scan("diagnostic-dump", "struct holding the service keytab printed with %+v (Keytab.String)", []byte(fmt.Sprintf("%+v", struct{ Keytab *keytab.Keytab }{settings.Keytab})))
 			if creds != nil {
 				if j, e := creds.JSON(); e == nil {
 					m.scan("credentials-json", "identity returned by VerifyAPREQ", []byte(j))
